@@ -798,6 +798,180 @@ func guardedBefore(fi *core.FuncInfo, e ast.Expr, pos token.Pos) bool {
 	return ok
 }
 
+// allocSizingParams: indexes of the parameters of fi that size a make() in its body, directly or
+// through locals computed from them.
+func allocSizingParams(fi *core.FuncInfo) []int {
+	info := fi.Pkg.TypesInfo
+	var params []types.Object
+	if fi.Decl.Type.Params != nil {
+		for _, f := range fi.Decl.Type.Params.List {
+			for _, n := range f.Names {
+				params = append(params, info.Defs[n])
+			}
+		}
+	}
+	if len(params) == 0 {
+		return nil
+	}
+	// derived[o] = set of params o depends on
+	derived := map[types.Object]map[int]bool{}
+	for i, o := range params {
+		if o != nil {
+			derived[o] = map[int]bool{i: true}
+		}
+	}
+	deps := func(e ast.Expr) map[int]bool {
+		out := map[int]bool{}
+		ast.Inspect(e, func(n ast.Node) bool {
+			if id, ok := n.(*ast.Ident); ok {
+				for k := range derived[info.ObjectOf(id)] {
+					out[k] = true
+				}
+			}
+			return true
+		})
+		return out
+	}
+	for round := 0; round < 3; round++ {
+		ast.Inspect(fi.Decl.Body, func(n ast.Node) bool {
+			if as, ok := n.(*ast.AssignStmt); ok && len(as.Lhs) == len(as.Rhs) {
+				for i, l := range as.Lhs {
+					if id, ok := l.(*ast.Ident); ok {
+						if o := info.ObjectOf(id); o != nil {
+							for k := range deps(as.Rhs[i]) {
+								if derived[o] == nil {
+									derived[o] = map[int]bool{}
+								}
+								derived[o][k] = true
+							}
+						}
+					}
+				}
+			}
+			return true
+		})
+	}
+	got := map[int]bool{}
+	ast.Inspect(fi.Decl.Body, func(n ast.Node) bool {
+		call, ok := n.(*ast.CallExpr)
+		if !ok {
+			return true
+		}
+		if id, ok := call.Fun.(*ast.Ident); ok && id.Name == "make" && len(call.Args) >= 2 {
+			for _, a := range call.Args[1:] {
+				for k := range deps(a) {
+					got[k] = true
+				}
+			}
+		}
+		return true
+	})
+	var out []int
+	for i := range params {
+		if got[i] {
+			out = append(out, i)
+		}
+	}
+	return out
+}
+
+// decodeHelperCall: the callee is part of the same decoding step — a method called on the caller's
+// own receiver (this.ensure(n), in.ReadBytes(n)) or a function that is handed the input stream.
+func decodeHelperCall(x *wire.Extractor, fi, cf *core.FuncInfo, call *ast.CallExpr) bool {
+	info := fi.Pkg.TypesInfo
+	if sel, ok := ast.Unparen(call.Fun).(*ast.SelectorExpr); ok {
+		if id, ok := ast.Unparen(sel.X).(*ast.Ident); ok && id.Name == recvName(fi) && recvName(fi) != "" {
+			if _, isMethod := info.Selections[sel]; isMethod {
+				return true
+			}
+		}
+	}
+	for _, a := range call.Args {
+		if t := info.TypeOf(a); t != nil && x.IsIn(t) {
+			return true
+		}
+	}
+	return false
+}
+
+// calleeBoundsParam: the helper itself rejects (panic / return) a value of its parameter that
+// exceeds something which is not a constant (what the input holds), before it allocates.
+func calleeBoundsParam(cf *core.FuncInfo, pi int) bool {
+	info := cf.Pkg.TypesInfo
+	var names []string
+	for _, f := range cf.Decl.Type.Params.List {
+		for _, n := range f.Names {
+			names = append(names, n.Name)
+		}
+	}
+	if pi >= len(names) {
+		return false
+	}
+	name := names[pi]
+	ok := false
+	ast.Inspect(cf.Decl.Body, func(n ast.Node) bool {
+		ifs, isIf := n.(*ast.IfStmt)
+		if !isIf {
+			return true
+		}
+		rejects := false
+		for _, s := range ifs.Body.List {
+			switch v := s.(type) {
+			case *ast.ReturnStmt:
+				rejects = true
+			case *ast.ExprStmt:
+				if call, isC := v.X.(*ast.CallExpr); isC {
+					if id, isId := call.Fun.(*ast.Ident); isId && id.Name == "panic" {
+						rejects = true
+					}
+				}
+			}
+		}
+		if !rejects {
+			return true
+		}
+		ast.Inspect(ifs.Cond, func(m ast.Node) bool {
+			be, isB := m.(*ast.BinaryExpr)
+			if !isB || (be.Op != token.GTR && be.Op != token.GEQ && be.Op != token.LSS && be.Op != token.LEQ) {
+				return true
+			}
+			small, big := be.X, be.Y
+			if be.Op == token.LSS || be.Op == token.LEQ {
+				small, big = be.Y, be.X
+			}
+			// small > big rejects: small mentions the parameter, big is not a constant
+			mentions := false
+			ast.Inspect(small, func(k ast.Node) bool {
+				if id, isId := k.(*ast.Ident); isId && id.Name == name {
+					mentions = true
+				}
+				return true
+			})
+			if tv, has := info.Types[big]; mentions && (!has || tv.Value == nil) {
+				ok = true
+			}
+			return true
+		})
+		return true
+	})
+	return ok
+}
+
+// taintGuarded: every decoded count inside e is bounded by a rejecting check before pos.
+func taintGuarded(tc *taintCtx, fi *core.FuncInfo, e ast.Expr, pos token.Pos) bool {
+	e = ast.Unparen(e)
+	if be, ok := e.(*ast.BinaryExpr); ok {
+		okAll := true
+		for _, side := range []ast.Expr{be.X, be.Y} {
+			if tc.source(fi, side, 0) != "" && !taintGuarded(tc, fi, side, pos) {
+				okAll = false
+			}
+		}
+		return okAll
+	}
+	return guardedBefore(fi, e, pos)
+}
+
 func c04AllocAndLoops(p *core.Program, r *core.Report) {
 	x := wire.NewExtractor(p)
 	tc := &taintCtx{p: p, x: x, fields: map[*types.Var]string{}}
@@ -861,6 +1035,35 @@ func c04AllocAndLoops(p *core.Program, r *core.Report) {
 			} else if id, ok := call.Fun.(*ast.Ident); ok && strings.HasPrefix(id.Name, "New") && strings.Contains(id.Name, "Map") && core.RelPkg(fi.Pkg.PkgPath) == "util/hmap" && len(call.Args) >= 1 {
 				sizeArgs = call.Args[:1]
 				what = id.Name
+			}
+			// a helper of the module that sizes an allocation by one of its parameters (ensure(n),
+			// grow(n)): passing it a decoded count allocates just the same. The bound has to be at the
+			// call site, on the count that came off the wire (a limit inside the helper that is a
+			// constant of the container, not of the input, bounds nothing a few bytes can ask for).
+			if what == "" {
+				if fn := calleeFunc(info, call); fn != nil {
+					if cf := p.FuncOf(fn); cf != nil && cf.Decl.Body != nil && inScope[core.RelPkg(cf.Pkg.PkgPath)] && decodeHelperCall(x, fi, cf, call) {
+						for _, pi := range allocSizingParams(cf) {
+							if pi < len(call.Args) && !calleeBoundsParam(cf, pi) {
+								a := call.Args[pi]
+								if src := tc.source(fi, a, 0); src != "" {
+									nAlloc++
+									base := fmt.Sprintf("%s %s(…)", fname, fn.Name())
+									allocSeen[base]++
+									c := base
+									if allocSeen[base] > 1 {
+										c = fmt.Sprintf("%s #%d", base, allocSeen[base])
+									}
+									if taintGuarded(tc, fi, a, call.Pos()) {
+										r.OK("C04.alloc", c, p.Pos(call.Pos()), "count from "+src+" is bounded by a rejecting check before the sizing helper is called")
+									} else {
+										r.Viol("C04.alloc", c, p.Pos(call.Pos()), fn.Name()+" allocates for "+stripSpaces(types.ExprString(a))+", a count decoded from the input ("+src+") that no check at this call site bounds: a few corrupted bytes allocate the whole announced size before any element is read")
+									}
+								}
+							}
+						}
+					}
+				}
 			}
 			for _, a := range sizeArgs {
 				src := tc.source(fi, a, 0)
